@@ -13,7 +13,7 @@ pub const REAL_MNEMONICS: &[&str] = &[
     "ALL", "COUNt", "VERSion", "INITiate", "IMMediate", "CALCulate", "DISPlay", "FORMat", "INPut", "OUTPut", "ROUTe",
     "CLOSe", "OPEN", "SCAN", "DC", "AC", "RANGe", "AUTO", "RESolution", "NPLCycles", "APERture", "DELay", "LEVel",
     "MINimum", "MAXimum", "DEFault", "UP", "DOWN", "INFinity", "NINFinity", "NAN", "ONCE", "OUTPut2", "CHANnel12",
-    "INPut1", "TRIGger2", "L125", "ASCii1", "ASCii2", "ABCDefghijkl", "ABCDEFGHIJKL", "ABCDEFGHIJ12", "Zz",
+    "INPut1", "TRIGger2", "L125", "ASCii1", "ASCii2", "ABCDefghijkl", "ABCDEFGHIJKL", "ABCDEFGHIJ12", "Zz", "CH123456789", "A12345678901", "MODule100000001", "SLOt123", "TRIGger1234", "Ab12", "CHan123",
 ];
 
 fn defs(max_s: u32, max_t: u32) -> Vec<Vec<u8>> {
@@ -143,6 +143,29 @@ fn neighbourhood(def: &[u8]) -> Vec<Vec<u8>> {
                 c.extend_from_slice(suf.as_bytes());
                 if c.len() <= 40 {
                     out.push(c);
+                }
+            }
+            // neighbours of the definition's own suffix: drop / change leading digits, truncate, extend
+            if let Some((_, _, dsuf)) = split_def(def) {
+                if !dsuf.is_empty() {
+                    let d = dsuf.to_vec();
+                    let mut vars: Vec<Vec<u8>> = vec![d[1..].to_vec(), d[..d.len() - 1].to_vec(), [d.as_slice(), b"0"].concat(), [b"1".as_slice(), &d].concat(), [b"2".as_slice(), &d[1..]].concat(), [b"9".as_slice(), &d[1..]].concat()];
+                    if d.len() >= 2 {
+                        vars.push(d[..d.len() - 2].to_vec());
+                        vars.push(d[2..].to_vec());
+                        let mut x = d.clone();
+                        let n = x.len();
+                        x[n - 1] = if x[n - 1] == b'9' { b'8' } else { x[n - 1] + 1 };
+                        vars.push(x);
+                        let mut y = d.clone();
+                        y[0] = if y[0] == b'9' { b'8' } else { y[0] + 1 };
+                        vars.push(y);
+                    }
+                    for v in vars {
+                        let mut c = s.clone();
+                        c.extend_from_slice(&v);
+                        out.push(c);
+                    }
                 }
             }
         }
